@@ -110,7 +110,7 @@ def cases(tier, seed):
     # always include the small reference configurations
     picks = [CONFIGS[0], {"task": "TSC", "cv": "kfold2", "ns": 2, "nd": 2, "save": True, "pot": True}] + picks
     cid = 0
-    picks = [dict(c, feat="permuted") if (j % 3 == 2) else c for j, c in enumerate(picks)]
+    picks = [dict(c, feat="permuted") if (j % 3 == 2) else (dict(c, feat="unsorted-default") if (j % 3 == 1 and j > 1) else c) for j, c in enumerate(picks)]
     for cfg in picks:
         K = _total_calls(cfg)
         for store in (("HDD", "RAM") if (cfg is picks[0] or cfg is picks[2]) else ("HDD",)):
@@ -143,6 +143,9 @@ def _datasets(cfg, dseed):
         else:
             y = np.round(rng.normal(5, 2, size=n), 3)
         df = pd.DataFrame({"dim_0": cells, "target": y})
+        if cfg.get("feat") == "unsorted-default":
+            # default feature selection (all columns but the target) on a frame whose column names are not in sorted order
+            df = pd.DataFrame({"zeta": cells, "alpha": [pd.Series(rng.normal(3, 1, 6)) for _ in range(n)], "mid": [pd.Series(rng.normal(9, 1, 6)) for _ in range(n)], "target": y})
         if cfg.get("feat") == "permuted":
             df = pd.DataFrame({"dim_0": cells, "dim_1": [pd.Series(rng.normal(3, 1, 6)) for _ in range(n)], "extra": [pd.Series(rng.normal(9, 1, 6)) for _ in range(n)], "target": y})
         if cfg["cv"].startswith("presplit"):
@@ -314,12 +317,12 @@ def run_case(case, ctx):
         return _run_case(case, ctx)
     finally:
         # the estimator is handed the task's feature columns, in the task's order, at fit and at every predict
-        want = ["dim_1", "dim_0"] if case["cfg"].get("feat") == "permuted" else ["dim_0"]
+        want = {"permuted": ["dim_1", "dim_0"], "unsorted-default": ["zeta", "alpha", "mid"]}.get(case["cfg"].get("feat"), ["dim_0"])
         for ev in FEATURES_SEEN:
             ctx.check("features", ev[2] == want and (ev[0] == "fit" or ev[2] == ev[3]), "strategy:%s-given-other-feature-columns-than-the-task-lists" % ev[0],
                       "the estimator was not handed exactly the task's feature columns in the task's order", op=ev[0], got=ev[2], expected=want, fitted_on=ev[3] if ev[0] == "predict" else None)
-        if case["cfg"].get("feat") == "permuted":
-            ctx.tag("task:explicit-permuted-features")
+        if case["cfg"].get("feat"):
+            ctx.tag("task:features-" + case["cfg"]["feat"])
 
 
 def _run_case(case, ctx):
